@@ -1,2 +1,205 @@
-/-! Line driver for C03 (stub; replaced when the model is written). -/
-def main : IO Unit := pure ()
+import MpVerif.C03.ModelSpec
+/-! Line driver for C03.  Input: the model / run lines printed by harness/h_nlw2.cc (without the "M " prefix).
+    For every `run` line it prints `== <case> <run args> wf=<bool>` followed by the canonical lines of
+    `readTokens (writeNL m o)` (the composed model of writer and reader) and a line `spec-agree <bool>` telling
+    whether that equals `events m o` (theorem C03_roundtrip says it must for well-formed models).
+    No model logic here: parsing of the line protocol and calls of model functions only. -/
+open MpVerif.C03 MpVerif.Gen.OpcodesW
+
+def hexVal (c : Char) : Option Nat :=
+  if '0' ≤ c ∧ c ≤ '9' then some (c.toNat - 48)
+  else if 'a' ≤ c ∧ c ≤ 'f' then some (c.toNat - 87) else none
+
+def parseHexNat (s : String) : Option Nat :=
+  s.toList.foldl (fun acc c => match acc, hexVal c with | some a, some d => some (a * 16 + d) | _, _ => none) (some 0)
+
+def parseDbl (s : String) : Option Dbl := if s.length = 16 then (parseHexNat s).map Dbl.ofBits else none
+
+def parseHexStr (s : String) : Option String :=
+  match s.toList with
+  | 'x' :: cs =>
+    let rec go : List Char → List Char → Option (List Char)
+      | [], acc => some acc.reverse
+      | a :: b :: r, acc => match hexVal a, hexVal b with
+        | some x, some y => go r (Char.ofNat (x * 16 + y) :: acc)
+        | _, _ => none
+      | _, _ => none
+    (go cs []).map String.ofList
+  | _ => none
+
+abbrev P (α : Type) := List String → Option (α × List String)
+
+def pNat : P Nat | s :: r => s.toNat?.map (·, r) | [] => none
+def pInt : P Int | s :: r => s.toInt?.map (·, r) | [] => none
+def pDbl : P Dbl | s :: r => (parseDbl s).map (·, r) | [] => none
+def pStr : P String | s :: r => (parseHexStr s).map (·, r) | [] => none
+
+def pRep (p : P α) : Nat → P (List α)
+  | 0, ts => some ([], ts)
+  | n + 1, ts => do
+    let (a, ts) ← p ts
+    let (l, ts) ← pRep p n ts
+    some (a :: l, ts)
+
+def pSparseD : P (List (Nat × Dbl)) := fun ts => do
+  let (n, ts) ← pNat ts
+  pRep (fun ts => do let (i, ts) ← pNat ts; let (x, ts) ← pDbl ts; some ((i, x), ts)) n ts
+def pSparseI : P (List (Nat × Int)) := fun ts => do
+  let (n, ts) ← pNat ts
+  pRep (fun ts => do let (i, ts) ← pNat ts; let (x, ts) ← pInt ts; some ((i, x), ts)) n ts
+
+def opCode (name : String) : Option Nat := (writerOps.find? (fun e => e.1 == name)).map (·.2.1)
+
+partial def pExpr : P Expr
+  | "n" :: ts => do let (x, ts) ← pDbl ts; some (.num x, ts)
+  | "v" :: ts => do let (i, ts) ← pNat ts; let (d, ts) ← pStr ts; some (.var i d, ts)
+  | "s" :: ts => do let (s, ts) ← pStr ts; some (.str s, ts)
+  | "f" :: ts => do
+    let (f, ts) ← pNat ts; let (n, ts) ← pNat ts; let (d, ts) ← pStr ts
+    let (as, ts) ← pRep pExpr n ts
+    some (.call f d as, ts)
+  | "o1" :: nm :: ts => do
+    let oc ← opCode nm; let (d, ts) ← pStr ts; let (a, ts) ← pExpr ts
+    some (.op1 oc d a, ts)
+  | "o2" :: nm :: ts => do
+    let oc ← opCode nm; let (d, ts) ← pStr ts; let (a, ts) ← pExpr ts; let (b, ts) ← pExpr ts
+    some (.op2 oc d a b, ts)
+  | "o3" :: nm :: ts => do
+    let oc ← opCode nm; let (d, ts) ← pStr ts; let (a, ts) ← pExpr ts; let (b, ts) ← pExpr ts; let (c, ts) ← pExpr ts
+    some (.op3 oc d a b c, ts)
+  | "oN" :: nm :: ts => do
+    let oc ← opCode nm; let (n, ts) ← pNat ts; let (d, ts) ← pStr ts
+    let (as, ts) ← pRep pExpr n ts
+    some (.opN oc d as, ts)
+  | _ => none
+
+structure Builder where
+  id : String := "?"
+  m : Model := { hdr := {} }
+  dvs : Array (Int × DefVar) := #[]
+  cons : Array Con := #[]
+  lcons : Array Con := #[]
+  objs : Array Obj := #[]
+  bad : Bool := false
+
+def Builder.assemble (b : Builder) : Model :=
+  let pick := fun (k : Int) => (b.dvs.toList.filter (fun p => p.1 == k)).map (·.2)
+  let nac := b.cons.size
+  { b.m with
+    dv0 := pick 0
+    cons := (List.range b.cons.size).map fun (i : Nat) => (pick ((i : Int) + 1), b.cons[i]!)
+    lcons := (List.range b.lcons.size).map fun (i : Nat) => (pick ((nac : Int) + i + 1), b.lcons[i]!)
+    objs := (List.range b.objs.size).map fun (i : Nat) => (pick (-(i : Int) - 1), b.objs[i]!) }
+
+def parseHdr (ts : List String) : Option Hdr := do
+  let (nopts, ts) ← pNat ts
+  let (opts, ts) ← pRep pInt 9 ts
+  let (vb, ts) ← pDbl ts
+  let (pn, ts) ← pStr ts
+  let (f, ts) ← pRep pNat 39 ts
+  if ts ≠ [] then none else
+  let g := fun i => f.getD i 0
+  some { format := 0, nopts := nopts, opts := opts, vbtol := vb, probName := pn,
+         nv := g 0, nac := g 1, no := g 2, nr := g 3, ne := g 4, nlc := g 5,
+         nrandv := g 6, nrandce := g 7, nrandc := g 8, nrando := g 9, nrandcalls := g 10, nstages := g 11,
+         nnlc := g 12, nnlo := g 13, ncc := g 14, nnlcc := g 15, ncdi := g 16, ncnz := g 17,
+         nnnc := g 18, nlnc := g 19, nlvc := g 20, nlvo := g 21, nlvb := g 22, nlnv := g 23, nf := g 24,
+         arith := g 25, flags := g 26, nlbv := g 27, nliv := g 28, nnlib := g 29, nnlic := g 30, nnlio := g 31,
+         nzc := g 32, nzo := g 33, ceb := g 34, cec := g 35, ceo := g 36, cesc := g 37, ceso := g 38 }
+
+def pNames (ts : List String) : Option (List String) := do
+  let (n, ts) ← pNat ts
+  let (l, ts) ← pRep pStr n ts
+  if ts ≠ [] then none else some l
+
+def step (b : Builder) (toks : List String) : Option Builder :=
+  match toks with
+  | ["case", id] => some { id := id }
+  | ["arith", a] => do let a ← a.toNat?; some { b with m := { b.m with hdr := { b.m.hdr with arith := a } } }
+  | "hdr" :: ts => do let h ← parseHdr ts; some { b with m := { b.m with hdr := h } }
+  | ["func", ty, na, nm] => do
+    let t ← ty.toNat?; let n ← na.toInt?; let s ← parseHexStr nm
+    some { b with m := { b.m with funcs := b.m.funcs ++ [⟨s, n, t⟩] } }
+  | "isuf" :: k :: nm :: ts => do
+    let k ← k.toNat?; let s ← parseHexStr nm; let (l, r) ← pSparseI ts
+    if r ≠ [] then none else some { b with m := { b.m with sufs := b.m.sufs ++ [⟨s, k, .ints l⟩] } }
+  | "dsuf" :: k :: nm :: ts => do
+    let k ← k.toNat?; let s ← parseHexStr nm; let (l, r) ← pSparseD ts
+    if r ≠ [] then none else some { b with m := { b.m with sufs := b.m.sufs ++ [⟨s, k, .dbls l⟩] } }
+  | "sosv" :: ts => do let (l, r) ← pSparseI ts; if r ≠ [] then none else some { b with m := { b.m with sosv := l } }
+  | "sosc" :: ts => do let (l, r) ← pSparseI ts; if r ≠ [] then none else some { b with m := { b.m with sosc := l } }
+  | "sosref" :: ts => do let (l, r) ← pSparseD ts; if r ≠ [] then none else some { b with m := { b.m with sosref := l } }
+  | ["vb", l, u] => do let l ← parseDbl l; let u ← parseDbl u; some { b with m := { b.m with vb := b.m.vb ++ [(l, u)] } }
+  | ["cb", l, u, k, cv] => do
+    let l ← parseDbl l; let u ← parseDbl u; let k ← k.toNat?; let cv ← cv.toNat?
+    some { b with m := { b.m with cb := b.m.cb ++ [⟨l, u, k, cv⟩] } }
+  | "x0" :: ts => do let (l, r) ← pSparseD ts; if r ≠ [] then none else some { b with m := { b.m with x0 := some l } }
+  | "d0" :: ts => do let (l, r) ← pSparseD ts; if r ≠ [] then none else some { b with m := { b.m with d0 := some l } }
+  | "dv" :: key :: idx :: d :: ts => do
+    let key ← key.toInt?; let idx ← idx.toNat?; let d ← parseHexStr d
+    let (lin, ts) ← pSparseD ts; let (e, r) ← pExpr ts
+    if r ≠ [] then none else some { b with dvs := b.dvs.push (key, ⟨idx, d, lin, e⟩) }
+  | "con" :: d :: ts => do
+    let d ← parseHexStr d; let (lin, ts) ← pSparseD ts; let (e, r) ← pExpr ts
+    if r ≠ [] then none else some { b with cons := b.cons.push ⟨d, lin, e⟩ }
+  | "lcon" :: d :: ts => do
+    let d ← parseHexStr d; let (e, r) ← pExpr ts
+    if r ≠ [] then none else some { b with lcons := b.lcons.push ⟨d, [], e⟩ }
+  | "obj" :: ty :: d :: ts => do
+    let ty ← ty.toNat?; let d ← parseHexStr d; let (lin, ts) ← pSparseD ts; let (e, r) ← pExpr ts
+    if r ≠ [] then none else some { b with objs := b.objs.push ⟨ty, d, lin, e⟩ }
+  | "cs" :: ts => do
+    let (n, ts) ← pNat ts; let (l, r) ← pRep pNat n ts
+    if r ≠ [] then none else some { b with m := { b.m with colsz := l } }
+  | "rown" :: ts => do let l ← pNames ts; some { b with m := { b.m with rowNames := l } }
+  | "coln" :: ts => do let l ← pNames ts; some { b with m := { b.m with colNames := l } }
+  | "unvn" :: ts => do let l ← pNames ts; some { b with m := { b.m with unvNames := l } }
+  | "fixn" :: ts => do let l ← pNames ts; some { b with m := { b.m with fixNames := l } }
+  | _ => none
+
+/-- the codec the correspondence runs with: text reads back a written double with the sign of zero dropped
+    (`g_fmt` prints "0" for -0) and otherwise unchanged — the hypothesis the harness tests on the real
+    `g_fmt`→`strtod`; binary is the identity.  `vb` is supplied by the harness per run (it is `strtod(printf("%.17g"))`, plain libc). -/
+def runCodec (binary : Bool) (vbBack : Dbl) : Codec :=
+  ⟨if binary then id else Dbl.normZero, fun _ => vbBack⟩
+
+def doRun (b : Builder) (args : List String) (out : IO.FS.Stream) : IO Unit := do
+  match args with
+  | [fmt, c, bf, cs, rf, vbs] =>
+    match fmt.toNat?, c.toNat?, bf.toNat?, cs.toNat?, rf.toNat?, parseDbl vbs with
+    | some fmt, some c, some bf, some cs, some rf, some vbBack =>
+      let o : Opts := ⟨fmt == 1, c == 1, bf == 1, cs⟩
+      let m0 := b.assemble
+      let m := { m0 with hdr := { m0.hdr with format := fmt } }
+      let cd := runCodec o.binary vbBack
+      out.putStrLn s!"== {b.id} {fmt} {c} {bf} {cs} {rf} wf={wellFormed m o} quirkfree={quirkFree cd m}"
+      let toks := writeNL m o
+      match (if rf == 0 then readTokens cd toks else readTokensBF cd toks) with
+      | .ok evs =>
+        for e in evs do out.putStrLn e.toLine
+        if rf == 0 then
+          let spec := (events cd m o).map Ev.toLine
+          out.putStrLn s!"spec-agree {decide (spec = evs.map Ev.toLine)}"
+      | .error e => out.putStrLn s!"read-error {repr e}"
+    | _, _, _, _, _, _ => out.putStrLn "bad-op"
+  | _ => out.putStrLn "bad-op"
+
+partial def loop (h : IO.FS.Stream) (out : IO.FS.Stream) (b : Builder) : IO Unit := do
+  let line ← h.getLine
+  if line.isEmpty then return ()
+  let toks := (line.trimAscii.toString.splitOn " ").filter (· ≠ "")
+  match toks with
+  | "run" :: args =>
+    if b.bad then out.putStrLn "bad-op" else doRun b args out
+    loop h out b
+  | [] => loop h out b
+  | _ =>
+    match step b toks with
+    | some b' => loop h out b'
+    | none =>
+      out.putStrLn s!"bad-op {toks.headD ""}"
+      loop h out { b with bad := true }
+
+def main : IO Unit := do
+  let out ← IO.getStdout
+  loop (← IO.getStdin) out {}
